@@ -20,7 +20,16 @@ func (x *Exec) fieldOf(v *smt.Term, t types.Type, i int) *smt.Term {
 		return v.Args[i]
 	}
 	if v.Op == "ite" {
-		return x.b.Ite(v.Args[0], x.fieldOf(v.Args[1], t, i), x.fieldOf(v.Args[2], t, i))
+		key := [2]int{v.ID, i}
+		if r, ok := x.projMemo[key]; ok {
+			return r
+		}
+		r := x.b.Ite(v.Args[0], x.fieldOf(v.Args[1], t, i), x.fieldOf(v.Args[2], t, i))
+		if x.projMemo == nil {
+			x.projMemo = map[[2]int]*smt.Term{}
+		}
+		x.projMemo[key] = r
+		return r
 	}
 	return x.b.App(si.Fields[i], x.so.SortOf(si.FTypes[i]), v)
 }
@@ -89,7 +98,16 @@ func (x *Exec) elemConst(v *smt.Term, ai *arrayInfo, k int) *smt.Term {
 		return v.Args[k]
 	}
 	if v.Op == "ite" {
-		return x.b.Ite(v.Args[0], x.elemConst(v.Args[1], ai, k), x.elemConst(v.Args[2], ai, k))
+		key := [2]int{v.ID, 1000 + k}
+		if r, ok := x.projMemo[key]; ok {
+			return r
+		}
+		r := x.b.Ite(v.Args[0], x.elemConst(v.Args[1], ai, k), x.elemConst(v.Args[2], ai, k))
+		if x.projMemo == nil {
+			x.projMemo = map[[2]int]*smt.Term{}
+		}
+		x.projMemo[key] = r
+		return r
 	}
 	return x.b.App(ai.Sels[k], ai.ESort, v)
 }
